@@ -815,7 +815,7 @@ func (e *Env) call(x *ECall) CV {
 			return CV{k: cvStr, arr: a.t, off: "0", n: a.n}
 		}
 		unsupp("contract: str() of kind %d", a.k)
-	case "events", "evis", "evarg":
+	case "events", "evis", "evarg", "evres":
 		// the global sequence of interface-method calls made so far
 		if fx.ghost == nil {
 			fx.ghost = map[string]*Cell{}
@@ -855,7 +855,7 @@ func (e *Env) call(x *ECall) CV {
 			if !ok || !ok2 {
 				unsupp("contract: evarg(\"iface.Method\", k, <literal argument index>)")
 			}
-			v, ok3 := gv("evarg:" + s.V + ":" + idx.V)
+			v, ok3 := gv(x.Fn + ":" + s.V + ":" + idx.V)
 			if !ok3 {
 				unsupp("contract: no call of %s recorded", s.V)
 			}
